@@ -180,5 +180,15 @@ pub fn scenarios(tier: Tier) -> Vec<Scenario> {
             }
         }
     }
+    // a middleware is added at run time while actions are in flight: every hook that runs is counted
+    for (pol, mws, k, bound) in if tier == Tier::Quick { vec![(Pol::Block, 1u32, 2u32, 2u32)] } else { vec![(Pol::Block, 1, 2, 3), (Pol::Block, 0, 2, 3), (Pol::Oldest, 2, 2, 2), (Pol::Latest, 1, 3, 2)] } {
+        let mut spec = StoreSpec::new(1, 2, pol);
+        spec.mws = mws;
+        let mut prog = Program::new(spec);
+        prog = prog.thread("p0", (0..k).map(|q| Op::Dispatch(Act::new(100 + q))).collect());
+        prog = prog.thread("registrar", vec![Op::AddMiddleware(5)]);
+        prog = prog.main(vec![Op::AddSub { id: 1, gated: false, reads: false }, Op::SpawnAll, Op::JoinAll, Op::Stop, Op::GetMetrics(9)]);
+        v.push(scn(format!("C18/{}mw{}k{}+add_middleware", pol.s(), mws, k), prog, bound, verif_rt::RunOpts::default(), check));
+    }
     v
 }
